@@ -36,7 +36,9 @@ RULE = ("a case = (script, fault map): the script fixes mode (foreground/daemon,
         "stand-in thread and judges, on the real descriptor, that the helper reads EOF however the session "
         "ends (and that READY follows the helper's STARTED; a helper that exits after GO without STARTED, "
         "with poll() answering 0 as after ECHILD or None-then-status, ends the session); plus random "
-        "double faults (one in the body, one in the finally part); non-trivial = the run got past ssh.connect; "
+        "double faults (one in the body, one in the finally part); init strings next to the genuine one (every "
+        "single-byte substitution by digits/sign/underscore/blank/CR/LF/TAB/NUL, truncations, other spellings "
+        "of the version) each followed by a good ROUTES frame; non-trivial = the run got past ssh.connect; "
         "distinct = distinct canonical input line")
 MANIFEST = dict(
     level_text=("Machine-checked Lean 4 theorems over a statement-by-statement model of client._main and the "
@@ -1178,10 +1180,42 @@ def fixed_scripts(ssnet):
     return out
 
 
+def near_handshake_scripts(ssnet):
+    """Init strings next to the genuine one, each followed by a good ROUTES frame: every single-byte
+    substitution by a digit, sign, underscore, blank, CR/LF/TAB or NUL at every position, every truncation,
+    other spellings of the version number, and the genuine string itself.  Only the genuine 12 bytes may
+    lead to the helper dialogue and READY."""
+    base = dict(daemon=0, udp=0, lat=1, auto=0, seed=None, inc=1, exc=0, ns=0, poll0=None, line=b'STARTED\n',
+                hpoll=None, wait=0, end='kbint')
+    r = fr(0, ssnet.CMD_ROUTES, b'2,10.0.0.0,8\n')
+    quiet = dict(alive=None, arrive=None, grant=None, accept=0)
+    variants = [SYNC]
+    subs = b'0123456789+-_ \r\n\t\0'
+    for i in range(len(SYNC)):
+        for c in subs:
+            v = SYNC[:i] + bytes([c]) + SYNC[i + 1:]
+            if v != SYNC:
+                variants.append(v)
+    for tail in [b'+001', b'-001', b'0_01', b' 001', b'001 ', b'001\n', b'1\r\n ', b'1   ', b' 1  ', b'  +1', b'01\t\n',
+                 b'1_00', b'0002', b'0010', b'1e00', b'0x01', b'0o01', b'1.00', b'\xd9\xa1  ', b'00\xc2\xb9']:
+        variants.append(SYNC[:8] + tail)
+    out = []
+    for v in variants:
+        out.append(dict(base, hs=[b'\0\0' + v + r], steps=[dict(quiet, grant=4096), dict(quiet)]))
+    for n in range(len(SYNC)):
+        out.append(dict(base, hs=[b'\0\0' + SYNC[:n]], steps=[dict(quiet, arrive=r), dict(quiet)]))
+    return out
+
+
 def gen_cases(ctx):
     ssnet = _mods()[0]
     rng = ctx.rng
     cases = []
+    for s in near_handshake_scripts(ssnet):
+        ev, outcome, w = run_case(ctx, s, {}, cases)
+        ctx.hist('near-handshake')
+        if 'fwROUTES' in ev:
+            ctx.hist('near-handshake:accepted')
     scripts = fixed_scripts(ssnet)
     nrand = ctx.scale(8, 220)
     for i in range(nrand):
